@@ -59,7 +59,7 @@ def base_locals(f, local):
             continue
         seen.add(l)
         for bb, kind, x in f.defs().get(l, []):
-            if kind == "stmt" and x.get("k") in ("use", "ref", "cast") and x["o"] and "p" in x["o"][0]:
+            if kind == "stmt" and x.get("k") in ("use", "ref", "cast", "rawptr") and x["o"] and "p" in x["o"][0]:
                 st.append(x["o"][0]["p"][0])
             elif kind == "call" and x.name in ("deref", "deref_mut", "as_slice", "as_ref", "as_mut", "borrow", "as_mut_slice", "index", "as_bytes", "to_vec", "clone", "collect", "iter", "into_iter") and x.args and "p" in x.args[0]:
                 st.append(x.args[0]["p"][0])
@@ -258,6 +258,50 @@ def classify_call(prog, f, c):
     return False, None
 
 
+def filter_guaranteed_len(prog, cl, coll):
+    """inside a closure handed to an iterator adaptor (`.find_map(|s| .. s[1] ..)`): the least length of the item that an immediately
+    upstream `.filter(|s| s.len() >= k && ..)` of the same chain guarantees (0 if there is none)"""
+    if not cl.is_closure() or cl.nargs < 2 or not (base_locals(cl, coll) & {2}):
+        return 0
+    parent = prog.fns.get(cl.parent)
+    if parent is None:
+        return 0
+    best = 0
+    for bb, st in parent.stmts():
+        if st.get("k") != "closure" or st.get("closure") != cl.path:
+            continue
+        fl = parent.flows_from({st["d"][0]}, through_calls=False)
+        for ad in parent.live_calls():
+            if not (len(ad.args) >= 2 and any("p" in a and a["p"][0] in fl for a in ad.args[1:]) and "p" in ad.args[0]):
+                continue
+            # the adaptor's receiver: produced (through copies) by a `filter` call?
+            for l in [x for x in A.copy_sources(parent, ad.args[0]["p"][0]) if isinstance(x, int)]:
+                for b2, kind, x in parent.defs().get(l, []):
+                    if kind != "call" or x.name != "filter" or len(x.args) < 2 or "p" not in x.args[1]:
+                        continue
+                    pred = None
+                    for l2 in [y for y in A.copy_sources(parent, x.args[1]["p"][0]) if isinstance(y, int)]:
+                        for b3, k3, d3 in parent.defs().get(l2, []):
+                            if k3 == "stmt" and d3.get("k") == "closure":
+                                pred = prog.fns.get(d3.get("closure"))
+                    if pred is None or pred.nargs < 2:
+                        continue
+                    # the predicate answers true only where its result is not the constant false: the least guaranteed length there
+                    lbs = []
+                    for b4, s4 in pred.stmts():
+                        if s4["d"] == [0] and s4.get("o"):
+                            o4 = s4["o"][0]
+                            if "c" in o4 and o4["c"].get("int") == 0:
+                                continue
+                            lbs.append(len_lower_bound(pred, b4, 2))
+                    for c4 in pred.live_calls():
+                        if c4.dst == [0]:
+                            lbs.append(len_lower_bound(pred, c4.bb, 2))
+                    if lbs:
+                        best = max(best, min(lbs))
+    return best
+
+
 def classify_assert(prog, f, bb, t):
     kind = t["kind"]
     if kind.startswith("other:"):
@@ -293,6 +337,8 @@ def classify_assert(prog, f, bb, t):
                     for coll in colls:
                         if len_lower_bound(f, bb, coll) >= k + 1:
                             return True, "constant index %d below the length guaranteed by the dominating check" % k
+                        if filter_guaranteed_len(prog, f, coll) >= k + 1:
+                            return True, "constant index %d into an item that passed an upstream `.filter(|x| x.len() >= ..)` of the same iterator chain" % k
                     return True, None
                 for coll in colls:
                     if len_checked(f, bb, coll):
